@@ -3,7 +3,7 @@
 # property's quantifier) are run against the check named here; rows are appended to seeded/RESULTS.md.
 cd /verif
 OUT=/verif/seeded/RESULTS.md
-MAP="C01-g1:C05 C02-g2:C10 C07-a2:C11 C09-a2:C01 C11-d2:C17 C11-g2:C02 C14-c1:C11 C17-c1:C18"
+MAP="C01-g1:C05 C02-g2:C10 C07-a2:C11 C09-a2:C01 C11-d2:C17 C11-g2:C02 C14-c1:C11"
 sed -i '/ (cross) /d' $OUT
 for m in $MAP; do
   n=${m%%:*}; c=${m##*:}
